@@ -2106,3 +2106,80 @@ func ruleEveryBlockDecoded(c *Check, p *Program, rule string) {
 		c.Fail(rule, "initR.reader#every-block-decoded", p.Pos(fn.Pos()), "the block read of the reading goroutine is resolved", "no call of FrameDataBlock.Read in Blocks.initR (anchor unresolved)")
 	}
 }
+
+// ---------------------------------------------------------------------------
+// R08.19: the ordering goroutine of the concurrent Writer leaves its loop over
+// the queue only because the queue was closed or because it took the sentinel
+// (a per-block channel that delivered nil). In particular it does not return
+// after a failed write to the destination: Writer.write keeps queueing blocks,
+// the workers wait for their per-block channel to be closed and Blocks.close
+// waits for its sentinel to be answered - with the goroutine gone all of them
+// block forever (every later Write, Close and Reset hangs, workers and pooled
+// buffers leak).
+
+func ruleOrderingDrains(c *Check, p *Program, rule string) {
+	iw := findFn(c, p, rule, "internal/lz4stream", "Blocks.initW")
+	if iw == nil {
+		return
+	}
+	done := false
+	for _, fn := range orderingFns(iw) {
+		var ch *ssa.Extract
+		allInstrs(fn, func(in ssa.Instruction) {
+			if ex, ok := in.(*ssa.Extract); ok && ex.Index == 0 {
+				if _, isChan := ex.Type().Underlying().(*types.Chan); isChan {
+					ch = ex
+				}
+			}
+		})
+		if ch == nil {
+			continue
+		}
+		done = true
+		c.Funcs[fname(fn)] = true
+		// v is what the per-block channel delivered
+		delivered := func(v ssa.Value) bool {
+			ok := false
+			walkBack(v, false, func(w ssa.Value) bool {
+				if u, isU := w.(*ssa.UnOp); isU && u.Op == token.ARROW && u.X == ssa.Value(ch) {
+					ok = true
+				}
+				if ex, isE := w.(*ssa.Extract); isE && ex.Index == 0 {
+					if u, isU := ex.Tuple.(*ssa.UnOp); isU && u.Op == token.ARROW && u.X == ssa.Value(ch) {
+						ok = true
+					}
+				}
+				return true
+			})
+			return ok
+		}
+		nRet := 0
+		allInstrs(fn, func(in ssa.Instruction) {
+			if !isReturn(in) {
+				return
+			}
+			nRet++
+			c.Sites++
+			why := ""
+			for _, l := range guardsOf(in.Block()) {
+				if ex, ok := l.Cond.(*ssa.Extract); ok && ex.Index == 1 && !l.Val && ex.Tuple == ch.Tuple {
+					why = "the queue was closed"
+				}
+				if bo, ok := l.Cond.(*ssa.BinOp); ok && (bo.Op == token.EQL && l.Val || bo.Op == token.NEQ && !l.Val) {
+					if isNilConst(bo.Y) && delivered(bo.X) || isNilConst(bo.X) && delivered(bo.Y) {
+						why = "the per-block channel delivered the sentinel (nil)"
+					}
+				}
+			}
+			c.Cond(why != "", rule, "initW.goroutine#leaves-only-on-close-or-sentinel", p.InstrPos(in),
+				"the ordering goroutine returns only when the queue is closed or when it has taken the sentinel; after a failed write it keeps taking (and closing) per-block channels, so that Writer.write, the workers and Blocks.close's hand-shake are all answered",
+				why, "this return is reachable while the queue is open and without the sentinel having been taken: from then on nothing receives from the queue - the next Write blocks once the queue is full, workers block on their per-block channel, Close and Reset block on the sentinel hand-shake (deadlock; goroutines and pooled buffers leak)")
+		})
+		if nRet == 0 {
+			c.Fail(rule, "initW.goroutine#leaves-only-on-close-or-sentinel", p.Pos(fn.Pos()), "returns of the ordering goroutine resolved", "no return instruction found")
+		}
+	}
+	if !done {
+		c.Fail(rule, "initW.goroutine#leaves-only-on-close-or-sentinel", p.Pos(iw.Pos()), "ordering goroutine resolved", "no closure of initW receives per-block channels (anchor unresolved)")
+	}
+}
